@@ -180,6 +180,40 @@ def edits(root, sm):
         root.append(mk("sectiontype", name="\u212aind"))
     add("R9:non-ascii-in-type-name", 0, f)
 
+    # R3: a type reference is the type's name up to letter case -- not up to case FOLDING
+    for good, ref in (("strasse", "stra\u00dfe"), ("ss", "\u017fs"), ("fis", "\ufb01s")):       # (not the Kelvin sign, which lower() itself maps to 'k': zone U11)
+        def f(root, good=good, ref=ref):
+            root.append(mk("sectiontype", name=good))
+            root.append(mk("multisection", type=ref, name="*", attribute="zz_fold"))
+        add("R3:type-reference-equal-only-after-case-folding", 0, f)
+
+    # R9: section names made of the wildcard characters are not wildcards
+    if sts:
+        for nm in ("*+", "+*", "**", "++", "*x", "+ "):
+            def f(root, nm=nm):
+                root.append(mk("section", type=root.findall("sectiontype")[0].get("name"), name=nm, attribute="zz_wild"))
+            add("R9:section-name-made-of-wildcard-characters", 0, f)
+
+    # R11: nothing structural inside the elements that hold text
+    for holder in ("description", "example"):
+        for inner in ("key", "sectiontype", "abstracttype", "multikey"):
+            def f(root, holder=holder, inner=inner):
+                d = mk(holder)
+                d.text = "text "
+                child = mk(inner, name="zzinner") if inner != "multikey" else mk(inner, name="zzinner", attribute="zzinner")
+                child.tail = " more text"
+                d.append(child)
+                root.insert(0, d)
+            add("R11:%s-inside-%s" % (inner, holder), 0, f)
+    for i, st in enumerate(sts):
+        def f(root, i=i):
+            t = root.findall("sectiontype")[i]
+            d = mk("description")
+            d.text = "text "
+            d.append(mk("key", name="zzinner"))
+            t.insert(0, d)
+        add("R11:key-inside-description-of-sectiontype", 1, f)
+
     def f(root):
         root.append(mk("abstracttype", name="lin\u212a"))
     add("R9:non-ascii-in-abstracttype-name", 0, f)
